@@ -409,3 +409,21 @@ Example ex_default_proper :
   | _ => []
   end = [None].
 Proof. vm_compute. reflexivity. Qed.
+
+(* KNOWN FINDING (known/C12.json, class mvar-vhea): instance() calls process_mvar with `&mut None`
+   for vhea, so the vertical metrics an MVAR table controls (vasc, vdsc, vlgp, vcrs, vcrn, vcof) keep
+   their default values in the instance.  Witness: one region 0 .. 1.0, delta +100 for `vasc`, at
+   coordinate 1.0 the value 800 stays 800; had the vhea table been passed it would become 900. *)
+Example ex_mvar_vhea_known_finding :
+  let st := {| ivs_regions := [[(0, 16384, 16384)]];
+               ivs_data := [{| ivd_wdc := 1; ivd_ric := 1; ivd_regions := [0]; ivd_data := [0; 100] |}] |} in
+  let vals := [900; -300; 0; 1000; 300; 800] in
+  (nth 5 (process_mvar st [16384] false [(1986098019, 0, 0)] vals) 0,
+   nth 5 (process_mvar st [16384] true [(1986098019, 0, 0)] vals) 0) = (800, 900).
+Proof. vm_compute. reflexivity. Qed.
+(* the horizontal counterpart is applied *)
+Example ex_mvar_hasc_applied :
+  let st := {| ivs_regions := [[(0, 16384, 16384)]];
+               ivs_data := [{| ivd_wdc := 1; ivd_ric := 1; ivd_regions := [0]; ivd_data := [0; 100] |}] |} in
+  nth 0 (process_mvar st [8192] false [(1751216995, 0, 0)] [900; -300]) 0 = 950.
+Proof. vm_compute. reflexivity. Qed.
